@@ -305,6 +305,16 @@ fn gen_req(r: &mut Rng) -> String {
     }
 }
 
+/// `hcommon::Rng::new(seed)` is SplitMix64 started at `seed * G + C`, so consecutive seeds (the shard
+/// seeds of the runner) walk the SAME sequence one step apart and the shards would largely repeat
+/// each other; scramble the seed so that the shards start far apart.
+fn mix_seed(seed: u64) -> u64 {
+    let mut z = seed.wrapping_add(0x9E3779B97F4A7C15);
+    z = (z ^ (z >> 30)).wrapping_mul(0xBF58476D1CE4E5B9);
+    z = (z ^ (z >> 27)).wrapping_mul(0x94D049BB133111EB);
+    z ^ (z >> 31)
+}
+
 fn main() {
     let cli = cli();
     let mut out = Out::new();
@@ -312,7 +322,7 @@ fn main() {
     let reqs: Vec<String> = if cli.mode == "replay" {
         read_requests(cli.file.as_deref().unwrap())
     } else {
-        let mut r = Rng::new(cli.seed);
+        let mut r = Rng::new(mix_seed(cli.seed));
         (0..cli.n).map(|_| gen_req(&mut r)).collect()
     };
     for req in reqs {
